@@ -14,6 +14,8 @@ import (
 	"verif/mc/props/c05"
 	"verif/mc/props/c06"
 	"verif/mc/props/c07"
+	"verif/mc/props/c11"
+	"verif/mc/props/c12"
 	"verif/mc/props/c14"
 	"verif/mc/props/c15"
 	"verif/mc/props/c16"
@@ -26,6 +28,8 @@ type prop struct {
 }
 
 var props = map[string]prop{
+	"C11": {"model_checking", c11.Main, func(r *core.Run, mode string, raw []byte) { c11.Replay(r, raw) }},
+	"C12": {"model_checking", c12.Main, func(r *core.Run, mode string, raw []byte) { c12.Replay(r, raw) }},
 	"C01": {"model_checking", c01.Main, func(r *core.Run, mode string, raw []byte) { c01.Replay(r, mode, raw) }},
 	"C16": {"model_checking", c16.Main, func(r *core.Run, mode string, raw []byte) { c16.Replay(r, mode, raw) }},
 	"C14": {"model_checking", c14.Main, func(r *core.Run, mode string, raw []byte) { c14.Replay(r, mode, raw) }},
